@@ -98,6 +98,11 @@ def make_run(pre_factories, label, fn, backend):
                         tok = held
                         ok = _new_token_ok(tok, tok_pre)
                         vc.require(p.pc, z3.BoolVal(ok), f"R2: a new column was not computed from pre-state data: {tok}", wit)
+                # R4 after the verb: a reference by NAME (C.name, "name") denotes the frame column that carries this name now
+                for nm, u in new._cache.name_to_uuid.items():
+                    bu = inv[u] if inv else u
+                    if bu in name_in_df:
+                        vc.require(p.pc, name_eq(nm, name_in_df[bu]), "R4: after the verb the name a column is known by differs from the name its frame column carries (a by-name reference would read another column / fail)", wit)
             else:
                 table, query, sqa_expr = state
                 vc.queries += 1
